@@ -159,7 +159,10 @@ def run(chk: Check) -> None:
     for look, rec, store in (("is_cached_subtype_check", "record_subtype_cache_entry", "_subtype_caches"), ("is_cached_negative_subtype_check", "record_negative_subtype_cache_entry", "_negative_subtype_caches")):
         lf, rf = ts.methods[look], ts.methods[rec]
         ls, rs = norm(lf.node), norm(rf.node)
-        ok = f"self.{store}" in ls and f"self.{store}" in rs and "cache.get(kind)" in ls and "cache.setdefault(kind, set()).add((left, right))" in rs and "(left, right) in subcache" in ls and "right.type" in ls and "right.type" in rs
+        from ..pattern import has
+        look_ok = has(lf.node, f"$c = self.{store}.get($i)", "$i = right.type", "$s = $c.get(kind)", "return (left, right) in $s") or has(lf.node, f"$c = self.{store}.get(right.type)", "$s = $c.get(kind)", "return (left, right) in $s")
+        rec_ok = has(rf.node, f"$c = self.{store}.setdefault(right.type, $_)", "$c.setdefault(kind, set()).add((left, right))") or has(rf.node, f"$c = self.{store}.setdefault($i, $_)", "$i = right.type", "$c.setdefault(kind, set()).add((left, right))")
+        ok = bool(look_ok and rec_ok)
         if ok:
             r1.ok(f"TypeState.{look}/{rec}: same store, keyed by right.type then kind then (left, right)", lf.loc())
         else:
